@@ -40,7 +40,10 @@ Decl(s) == FilterTable(tbl, s.thr, s.filter, s.am, s.mask, s.ng).rows
 ImplIsDecl == phase = "done" => out = Decl(setting)
 
 \* stricter settings keep a subset of the rows (rows are keyed by k-mer, so subset = sub-multiset of columns)
-StricterFilter(f, g) == g = "no-filter" \/ f = g \/ f = "no-ambig-or-const"
+\* f at least as strict as g.  no-ambig-or-const implies no-const (two distinct plain symbols are two
+\* distinct symbols) but NOT no-ambig: a site with two plain symbols and an ambiguity code passes it
+\* (TLC refuted the stronger claim on the 3-sample universe).
+StricterFilter(f, g) == g = "no-filter" \/ f = g \/ (f = "no-ambig-or-const" /\ g = "no-const")
 Mono == phase = "done" =>
    \A s \in Settings :
       (/\ s.mask = setting.mask /\ s.ng = setting.ng /\ s.am = setting.am
